@@ -241,7 +241,7 @@ def layout_variant(R, arr, variant=None):
 
 def gen_spec(R, *, n_lf=None, hc=False, small=False, kinds=None, vrl=None, rows=None, with_index=None, fastpath=False):
     spec = {'sul': {'set_identifier': R.choice(['MAIN-STORAGE-UNIT', 'A', 'X' * 60, 'SET-1']) if hc else
-                    R.choice(['MAIN-STORAGE-UNIT', 'A', 'X' * 60, 'some set id', '']),
+                    R.choice(['MAIN-STORAGE-UNIT', 'A', 'X' * 60, 'some set id', '', ' led by a blank', 'ends in blanks  ']),
                     'sul_sequence_number': R.choice([1, 1, 2, 9999, 0, R.randrange(1, 9999)]),
                     'max_record_length': vrl or R.choice([8192, 8192, 16384, 20, 22, 32, 64, 100, 256, 1024,
                                                          R.randrange(20, 600, 2)])},
@@ -249,9 +249,12 @@ def gen_spec(R, *, n_lf=None, hc=False, small=False, kinds=None, vrl=None, rows=
     n_lf = n_lf or (1 if fastpath else R.choice([1, 1, 1, 2, 3]))
     for li in range(n_lf):
         tag = f'LF{li}' if n_lf > 1 else None
-        lf = {'fh_id': R.choice(['FILE-HEADER', 'HDR', 'H' * 65, eflr.rstr(R, R.randrange(1, 66))] + ([''] if not hc else [])),
+        lf = {'fh_id': R.choice(['FILE-HEADER', 'HDR', 'H' * 65, eflr.rstr(R, R.randrange(1, 66))]
+                               + (['', ' LEADING BLANK', '  X ', 'TRAILING  '] if not hc else [])),
               'fh_sequence_number': R.choice([1, 2, 9999999999, R.randrange(1, 10**10)]),
               'fh_identifier': R.choice(['0', 'X', '9']), 'objects': [], 'noformat': [], 'set_tag': tag}
+        if not hc and R.random() < 0.12:
+            lf['fh_route'] = 'late'
         objs = lf['objects']
         nframes = (R.choice([1, 1, 2]) if not small else 1) if not fastpath else 1
         nrows = rows or R.choice([1, 2, 3, 5, 17, 17, 130] if not small else [1, 2, 3])      # 130: frame numbers beyond one UVARI byte
@@ -505,8 +508,14 @@ def build(spec):
                                            sequence_number=lf['fh_sequence_number'], identifier=lf['fh_identifier'])
             L = b.df.add_logical_file(file_header=fh)
         else:
-            L = b.df.add_logical_file(fh_id=lf['fh_id'], fh_sequence_number=lf['fh_sequence_number'],
-                                      fh_identifier=lf['fh_identifier'])
+            if lf.get('fh_route') == 'late':
+                # header values assigned to the header object after it was made (before any object is added)
+                L = b.df.add_logical_file(fh_id='PLACEHOLDER', fh_sequence_number=1, fh_identifier=lf['fh_identifier'])
+                L.file_header.header_id = lf['fh_id']
+                L.file_header.sequence_number = lf['fh_sequence_number']
+            else:
+                L = b.df.add_logical_file(fh_id=lf['fh_id'], fh_sequence_number=lf['fh_sequence_number'],
+                                          fh_identifier=lf['fh_identifier'])
         hs = []
         b.handles.append(hs)
         for oi, o in enumerate(lf['objects']):
@@ -676,6 +685,7 @@ def describe(spec):
                 e['data'] = dv(o['data'])
             objs.append(e)
         d['logical_files'].append({'fh_id': lf['fh_id'], 'fh_sequence_number': lf['fh_sequence_number'],
+                                   'header_values_assigned_after_construction': lf.get('fh_route') == 'late',
                                    'fh_identifier': lf['fh_identifier'], 'objects': objs,
                                    'noformat': [[i, dv(p) if not isinstance(p, bytearray) else 'bytearray:' + bytes(p)[:64].hex()] for i, p in lf['noformat']]})
     return d
